@@ -109,7 +109,7 @@ def drain_rules(ctx, prog, fname="reproc_drain"):
     seen = set()
     first_poll_checked = False
     for e in res.events:
-        kind, fn, n, info, s, stack = e
+        kind, fn, n, info, s, stack = e[:6]
         if kind == "poll":
             key = ("poll", s.mon.get("ncalls", 0))
             if key in seen:
@@ -154,7 +154,7 @@ def drain_rules(ctx, prog, fname="reproc_drain"):
     ctx.floor("C16.G2", 4)
     # stream selection: OUT when the out event bit is set, ERR otherwise
     for e in res.events:
-        kind, fn, n, info, s, stack = e
+        kind, fn, n, info, s, stack = e[:6]
         if kind == "read":
             last = s.mon.get("last")
             if last and last[0] == "poll" and last[1] == "events":
